@@ -180,9 +180,15 @@ fn check_pair<R: RuleType>(input: &str, p: &Pair<'_, R>, n: &Node, tags_known: b
     if !dbg.contains("Pair") || !dbg.contains(&n.rule) {
         return Err(f("pair:debug", format!("Debug output {dbg:?} lacks the rule")));
     }
-    let js: Value = serde_json::from_str(&p.to_json()).map_err(|e| f("pair:json", format!("to_json is not JSON: {e}")))?;
-    if js != expect_json(input, n) {
-        return Err(f("pair:json", format!("to_json {js} vs {}", expect_json(input, n))));
+    // serde_json refuses to parse documents nested deeper than 128 levels; a pair contributes two
+    // levels, so very deep trees are only rendered (must not panic), not parsed back
+    if depth(std::slice::from_ref(n)) <= 40 {
+        let js: Value = serde_json::from_str(&p.to_json()).map_err(|e| f("pair:json", format!("to_json is not JSON: {e}")))?;
+        if js != expect_json(input, n) {
+            return Err(f("pair:json", format!("to_json {js} vs {}", expect_json(input, n))));
+        }
+    } else {
+        let _ = p.to_json();
     }
     // into_inner
     let inner = p.clone().into_inner();
@@ -226,13 +232,17 @@ fn check_pairs_static<R: RuleType>(input: &str, ps: &Pairs<'_, R>, nodes: &[Node
         return Err(f("pairs:display-alt", format!("alternate Display {alt:?} vs {want_alt:?}")));
     }
     let _ = format!("{ps:?}");
-    let js: Value = serde_json::from_str(&ps.to_json()).map_err(|e| f("pairs:json", format!("to_json is not JSON: {e}")))?;
-    let want_pairs: Vec<Value> = nodes.iter().map(|n| expect_json(input, n)).collect();
-    if js["pairs"] != Value::Array(want_pairs.clone()) {
-        return Err(f("pairs:json", format!("to_json pairs {} vs {}", js["pairs"], Value::Array(want_pairs))));
-    }
-    if !nodes.is_empty() && js["pos"] != json!([nodes[0].start, nodes.last().unwrap().end]) {
-        return Err(f("pairs:json", format!("to_json pos {} vs [{}, {}]", js["pos"], nodes[0].start, nodes.last().unwrap().end)));
+    if depth(nodes) <= 40 {
+        let js: Value = serde_json::from_str(&ps.to_json()).map_err(|e| f("pairs:json", format!("to_json is not JSON: {e}")))?;
+        let want_pairs: Vec<Value> = nodes.iter().map(|n| expect_json(input, n)).collect();
+        if js["pairs"] != Value::Array(want_pairs.clone()) {
+            return Err(f("pairs:json", format!("to_json pairs {} vs {}", js["pairs"], Value::Array(want_pairs))));
+        }
+        if !nodes.is_empty() && js["pos"] != json!([nodes[0].start, nodes.last().unwrap().end]) {
+            return Err(f("pairs:json", format!("to_json pos {} vs [{}, {}]", js["pos"], nodes[0].start, nodes.last().unwrap().end)));
+        }
+    } else {
+        let _ = ps.to_json();
     }
     // flatten / tags
     let mut pre = vec![];
